@@ -4,6 +4,8 @@ package kcache
 
 import (
 	"context"
+
+	pkgerrors "github.com/pkg/errors"
 	"time"
 
 	"github.com/boz/kcache/filter"
@@ -226,7 +228,12 @@ func VerifC12_Controller() {
 		}
 		racer <- true
 	}()
-	switch zzverif.NondetInt("trigger", 0, 2) {
+	switch zzverif.NondetInt("trigger", 0, 3) {
+	case 3:
+		// a list that fails with a cancellation error of its own (nothing was cancelled here)
+		e.l.resultch <- listResult{err: pkgerrors.Wrap(context.Canceled, "client list")}
+		<-e.c.Done()
+		zzverif.Reach("C12/controller/list-cancelled-error")
 	case 0:
 		e.c.Close()
 		zzverif.Assert(vClosed(e.c.Done()), "C12/no-hang/close-returns-after-done")
